@@ -30,11 +30,11 @@ Templates ==
      VerifyJWS           |-> {"jws", "jwk"},
      MarshalCanonical    |-> {"create", "document"},
      PatchFromBytes      |-> {"patch_keys", "patch_jsonpatch", "patch_replace"},
-     Validate            |-> {"patch_keys", "patch_services", "patch_jsonpatch", "patch_replace", "patch_aka", "patch_remove_keys"},
-     ApplyPatches        |-> {"patch_keys", "patch_services", "patch_jsonpatch", "patch_jsonpatch_array", "patch_replace", "patch_aka",
+     Validate            |-> {"patch_keys", "patch_services", "patch_services_objects", "patch_jsonpatch", "patch_replace", "patch_aka", "patch_remove_keys"},
+     ApplyPatches        |-> {"patch_keys", "patch_services", "patch_services_objects", "patch_jsonpatch", "patch_jsonpatch_array", "patch_replace", "patch_aka",
                               "patch_remove_keys", "patch_remove_services", "patch_remove_aka", "document"},
      Apply               |-> {"create", "update", "recover", "deactivate"},
-     TransformDocument   |-> {"document", "patch_keys", "patch_services"},
+     TransformDocument   |-> {"document", "patch_keys", "patch_services", "patch_services_objects"},
      OriginalDocument    |-> {"document"}]
 
 EntryPoints == DOMAIN Templates
@@ -42,7 +42,7 @@ EntryPoints == DOMAIN Templates
 \* what a node of the template is replaced by
 Replacements == {"null", "true", "zero", "minus_one", "huge_number", "empty_string", "long_string", "empty_array", "empty_object",
                  "deep_nesting", "removed", "duplicated", "other_type", "string_of_number", "array_of_self", "negative_index",
-                 "huge_index", "large_index", "pointer_into_own_source", "non_string_key_value", "unicode_garbage"}
+                 "huge_index", "large_index", "varint_overflow", "pointer_into_own_source", "non_string_key_value", "unicode_garbage"}
 
 \* chains of copy / move operations among a few locations of one document: a library that links nodes
 \* instead of copying them must not be led into a cyclic document
